@@ -82,7 +82,8 @@ where
     let next = AtomicU64::new(0);
     let results: Mutex<Vec<Local>> = Mutex::new(Vec::new());
     std::thread::scope(|s| {
-        for t in 0..THREADS {
+        let nthreads = std::env::var("VERIF_THREADS").ok().and_then(|v| v.parse::<usize>().ok()).unwrap_or(THREADS).clamp(1, THREADS);
+        for t in 0..nthreads {
             let next = &next;
             let f = &f;
             let results = &results;
